@@ -449,15 +449,16 @@ def numValue (v : Bytes) : Int :=
     if last.toNat ≥ 0x80 then -((leNat v : Int) - (0x80 : Int) * 256 ^ (v.length - 1))
     else (leNat v : Int)
 
-/-- minimal encoding rule of `CScriptNum(vch, fRequireMinimal)` -/
+/-- minimal encoding rule of `CScriptNum(vch, fRequireMinimal)`: if the last byte carries no magnitude bits
+(`& 0x7f == 0`, i.e. it is 0x00 or 0x80) then the byte before it must have its top bit set -/
 def isMinimalNum (v : Bytes) : Bool :=
   match v.reverse with
   | [] => true
   | last :: rest =>
-    if last &&& 0x7f == 0 then
+    if last == 0x00 || last == 0x80 then
       match rest with
       | [] => false
-      | prev :: _ => prev &&& 0x80 != 0
+      | prev :: _ => decide (prev.toNat ≥ 0x80)
     else true
 
 def natLEBytes : Nat → Nat → Bytes
@@ -472,7 +473,7 @@ def encodeNum (n : Int) : Bytes :=
   | none => []
   | some last =>
     if last.toNat ≥ 0x80 then mag ++ [if n < 0 then 0x80 else 0x00]
-    else if n < 0 then mag.dropLast ++ [last ||| 0x80] else mag
+    else if n < 0 then mag.dropLast ++ [UInt8.ofNat (last.toNat + 0x80)] else mag
 
 /-- `CheckMinimalPush(data, opcode)` -/
 def checkMinimalPush (op : Nat) (data : Bytes) : Bool :=
